@@ -646,6 +646,12 @@ def remap_by_types(
             # Make reference copies that we'll populate as we go
             r_node = node
 
+            # A method of one of python's own value types (`'abc'.strip()`): nobody declared
+            # anything for it, so there are no defaults to fill in and no type to follow.
+            if getattr(obj_type, "__module__", None) == "builtins":
+                self._found_types[node] = Any
+                return node
+
             # Find all objects that this method exists on.
             base_obj_list_all = [obj_type]
             if is_iterable(obj_type):
